@@ -127,11 +127,18 @@ def main():
             return common(e, rd, out, which, nil, None)
         return run
 
-    for fn in (run_gen, run_sign, run_wrapper('SignZa'), run_wrapper('Sign')):
-        for r in eng.explore(fn):
-            npaths += 1
-            for f in r:
-                fails.setdefault(f[0], []).append(f)
+    aborted = []
+    for fname_, fn in (('GenerateKey', run_gen), ('SignHashed', run_sign), ('SignZa', run_wrapper('SignZa')), ('Sign', run_wrapper('Sign'))):
+        try:
+            for r in eng.explore(fn):
+                npaths += 1
+                for f in r:
+                    fails.setdefault(f[0], []).append(f)
+        except Unsupported as ex:
+            # the entry point uses something the interpreter does not model: its symbolic part is inconclusive, the other entry
+            # points and the concrete schedules on the real build still run
+            aborted.append(fname_)
+            ck.record('faults[symbolic:%s]' % fname_, 'inconclusive', 'symbolic exploration of %s not completed: %s' % (fname_, str(ex)[:160]))
 
     def run_nil(e):
         out = e.call_outcome(SM2 + '.GenerateKey', [None])
@@ -204,7 +211,7 @@ func TestVerifReplay(t *testing.T) {
             ck.violation(key, f[1], path)
         else:
             ck.encoder_mismatch('faults[' + key + ']', f[1] + ' :: ' + (out or '')[-200:])
-    if not fails:
+    if not fails and not aborted:
         ck.record('faults', 'proved', '%d paths over %d distinct read schedules (%d with a fault): error <=> the source failed before a complete acceptable draw; no output with an error; group operations only on complete draws; short reads completed; nil source refused' % (
             npaths, len(scheds), len(nontrivial)), rule, secs)
     # long runs of rejected candidates (beyond the symbolic bound on the number of candidates): k rejected 32-byte draws, then the
@@ -217,6 +224,9 @@ func TestVerifReplay(t *testing.T) {
 	priv := make([]byte, 32); priv[31] = 7
 	e := make([]byte, 32); e[0] = 1
 	good := bytes.Repeat([]byte{0x11}, 32)
+	px, py, _ := DerivePublic(priv)
+	id, msg := []byte("1234567812345678"), []byte("message digest")
+	za, _ := ZA(id, px, py)
 	for _, rejected := range [][]byte{bytes.Repeat([]byte{0xff}, 32), make([]byte, 32)} {
 		for k := 0; k <= 40; k++ {
 			for _, tail := range [][]byte{nil, good[:17], good} {
@@ -230,6 +240,14 @@ func TestVerifReplay(t *testing.T) {
 				if wantErr && err == nil { t.Fatalf("SignHashed: %d rejected nonce candidates then %d more bytes: no error, r=%x s=%x", k, len(tail), r, s) }
 				if wantErr && (r != nil || s != nil) { t.Fatalf("SignHashed: error together with a signature") }
 				if !wantErr && err != nil { t.Fatalf("SignHashed: %d rejected candidates then a good one: %v", k, err) }
+				if k <= 3 {
+					rm, sm, err := Sign(id, px, py, &seqReader{b: stream}, priv, msg)
+					if wantErr && (err == nil || rm != nil || sm != nil) { t.Fatalf("Sign: %d rejected nonce candidates then %d more bytes and the end of the source: err=%v r=%x s=%x", k, len(tail), err, rm, sm) }
+					if !wantErr && err != nil { t.Fatalf("Sign: %d rejected candidates then a good one: %v", k, err) }
+					rz, sz, err := SignZa(&seqReader{b: stream}, priv, za, msg)
+					if wantErr && (err == nil || rz != nil || sz != nil) { t.Fatalf("SignZa: %d rejected nonce candidates then %d more bytes and the end of the source: err=%v r=%x s=%x", k, len(tail), err, rz, sz) }
+					if !wantErr && (err != nil || !bytes.Equal(rz, rm) || !bytes.Equal(sz, sm)) { t.Fatalf("SignZa: %d rejected candidates then a good one: err=%v, or differs from Sign", k, err) }
+				}
 			}
 		}
 	}
